@@ -382,6 +382,8 @@ impl<T: Sync + Send + 'static> Nucleo<T> {
 
     /// Update the internal configuration.
     pub fn update_config(&mut self, config: Config) {
+        #[cfg(nucleo_verif)]
+        verif::point("update_config:lock", 0);
         self.worker.lock().update_config(config)
     }
 
